@@ -18,12 +18,20 @@ type c32FixedResp struct {
 
 // c32Fixed builds a deterministic case: every response is its own batch.
 func c32Fixed(parents []int, pre int, rs []c32FixedResp, oneBatch bool) *c32Case {
+	return c32FixedJ(parents, pre, nil, rs, oneBatch)
+}
+
+// c32FixedJ: as c32Fixed, the blocks listed in justified carry a justification in every copy.
+func c32FixedJ(parents []int, pre int, justified []int, rs []c32FixedResp, oneBatch bool) *c32Case {
 	tr := c32MakeTree(parents)
 	c := &c32Case{tree: tr, pre: pre, justified: map[int]bool{}}
+	for _, j := range justified {
+		c.justified[j] = true
+	}
 	for ri, fr := range rs {
 		r := &c32Resp{blocks: fr.blocks, desc: fr.desc, completed: true, who: peer.ID("c32-fixed-" + string(rune('a'+ri)))}
 		for _, b := range fr.blocks {
-			r.payload = append(r.payload, tr.blockData(b, false))
+			r.payload = append(r.payload, tr.blockData(b, c.justified[b]))
 		}
 		if fr.forge != nil {
 			r.payload = fr.forge(tr, r.payload)
@@ -65,15 +73,18 @@ func TestC32Regressions(t *testing.T) {
 
 	// sanity (not vacuous): one honest chain on top of a known block is handed over completely, in order
 	{
-		c := c32Fixed(c32TwoBranches, 0, []c32FixedResp{{blocks: []int{1, 2, 3}}}, false)
-		out := c32Run(c)
-		if out.violation != "" {
-			t.Fatalf("honest chain: %s", out.violation)
+		for _, real := range []bool{false, true} {
+			c := c32Fixed(c32TwoBranches, 0, []c32FixedResp{{blocks: []int{1, 2, 3}}}, false)
+			c.real = real
+			out := c32Run(c)
+			if out.violation != "" {
+				t.Fatalf("honest chain: %s", out.violation)
+			}
+			if out.accepted != 3 || out.badCount != 0 {
+				t.Fatalf("honest chain 1,2,3 on genesis (real importer: %v): %d blocks accepted, want 3", real, out.accepted)
+			}
+			kit.Case("regression honest "+c.describe(), false, "regression")
 		}
-		if out.accepted != 3 || out.badCount != 0 {
-			t.Fatalf("honest chain 1,2,3 on genesis: %d blocks accepted, want 3", out.accepted)
-		}
-		kit.Case("regression honest "+c.describe(), false, "regression")
 	}
 	// sanity: fork and main chain, children first, descending payload: everything ends up imported
 	{
@@ -124,21 +135,61 @@ func TestC32Regressions(t *testing.T) {
 		{"ascending-payload-for-descending-request", []c32FixedResp{{blocks: []int{3, 2, 1}, desc: true}}},
 	}
 	for _, b := range bad {
-		c := c32Fixed(c32TwoBranches, 0, b.rs, false)
-		nbad := 0
-		for _, r := range c.resps {
-			if r.bad != "" {
-				nbad++
+		for _, real := range []bool{false, true} {
+			c := c32Fixed(c32TwoBranches, 0, b.rs, false)
+			c.real = real
+			nbad := 0
+			for _, r := range c.resps {
+				if r.bad != "" {
+					nbad++
+				}
 			}
+			if nbad != 1 {
+				t.Fatalf("%s: harness: expected exactly one response to be judged bad, got %d", b.name, nbad)
+			}
+			out := c32Run(c)
+			if out.violation != "" {
+				t.Fatalf("%s: %s\ncase: %s", b.name, out.violation, c.describe())
+			}
+			kit.Case("regression "+b.name+" "+c.describe(), true, "regression", "regression-bad")
 		}
-		if nbad != 1 {
-			t.Fatalf("%s: harness: expected exactly one response to be judged bad, got %d", b.name, nbad)
-		}
+	}
+
+	// Already imported blocks that arrive again, some of them with a justification, through the
+	// REAL blockImporter (seeded change C32-e: its "already known" guard let a known block pass
+	// when it came with a justification, so the block was executed and handed to the import
+	// handler a second time). Chain 0<-1<-2<-3<-4<-5.
+	chain := []int{-1, 0, 1, 2, 3, 4}
+	again := []struct {
+		name      string
+		justified []int
+		rs        []c32FixedResp
+		oneBatch  bool
+		want      int // distinct blocks offered
+	}{
+		{"duplicated-response-unjustified", nil, []c32FixedResp{{blocks: []int{1, 2, 3, 4}}, {blocks: []int{1, 2, 3, 4}}}, true, 4},
+		{"duplicated-response-justified-same-round", []int{3}, []c32FixedResp{{blocks: []int{1, 2, 3, 4}}, {blocks: []int{1, 2, 3, 4}}}, true, 4},
+		{"overlapping-responses-justified-later-round", []int{3}, []c32FixedResp{{blocks: []int{1, 2, 3}}, {blocks: []int{3, 4, 5}}}, false, 5},
+		{"descending-response-overlaps-justified-later-round", []int{2, 3}, []c32FixedResp{{blocks: []int{1, 2, 3}}, {blocks: []int{2, 3, 4}, desc: true}}, false, 4},
+		{"justified-head-resent-alone", []int{2}, []c32FixedResp{{blocks: []int{1, 2}}, {blocks: []int{2}}, {blocks: []int{2}}}, false, 2},
+	}
+	for _, a := range again {
+		c := c32FixedJ(chain, 0, a.justified, a.rs, a.oneBatch)
+		c.real = true
 		out := c32Run(c)
 		if out.violation != "" {
-			t.Fatalf("%s: %s\ncase: %s", b.name, out.violation, c.describe())
+			t.Fatalf("%s: %s\ncase: %s", a.name, out.violation, c.describe())
 		}
-		kit.Case("regression "+b.name+" "+c.describe(), true, "regression", "regression-bad")
+		// whether everything offered ends up imported and whether the duplicates reach the importer
+		// at all is not part of the property: recorded, not asserted
+		lbl, lbl2 := "regression-known-block-again-reached-importer", "regression-known-block-again-incomplete"
+		if out.reKnown == 0 || (len(a.justified) > 0 && out.reJustifiedSame+out.reJustifiedLater == 0) {
+			lbl = "regression-known-block-again-NOT-reached"
+		}
+		if out.accepted == a.want {
+			lbl2 = "regression-known-block-again-all-imported"
+		}
+		kit.Case("regression "+a.name+" "+c.describe(), true, "regression", lbl, lbl2)
 	}
 }
 
